@@ -95,7 +95,7 @@ class Crash(Exception):
 
 class World:
     def __init__(self, scratch, branches, tags=None, settings=None, hotfix=None,
-                 cmd_line_options=None):
+                 cmd_line_options=None, flat=False):
         """branches: destination branches in *inclusion order* (each is created on top of the
         previous one with one commit of its own), e.g.
            ['stabilization/4.3.18', 'development/4.3', 'development/5.1', 'development/10']
@@ -126,9 +126,11 @@ class World:
         self.tid = 0
         self.cmd_fault = None
         self.cred_url = None
+        self.extra_secrets = set()
         self.faulted = False
         self.pmap = {}           # symbolic PR index (order of opening) -> real PR id
         self.rng_eval = random.Random(12345)
+        self.flat = flat                 # True: later branches start with the SAME content as the first one
         self.init_branches = list(branches)
         self.hotfix = list(hotfix or [])
         self.tags0 = dict(tags or {})
@@ -201,10 +203,11 @@ class World:
         sh('git remote add origin %s' % self.bare, u)
         sh('git tag init_tag', u)
         prev = 'master'
-        for b in self.init_branches:
+        for i, b in enumerate(self.init_branches):
             sh('git checkout -q -b %s %s' % (b, prev), u)
-            fn = 'base_' + b.replace('/', '_')
-            sh('echo %s > %s; git add %s; git commit -q -m "%s"' % (fn, fn, fn, fn), u)
+            if not (self.flat and i > 0):
+                fn = 'base_' + b.replace('/', '_')
+                sh('echo %s > %s; git add %s; git commit -q -m "%s"' % (fn, fn, fn, fn), u)
             prev = b
         for h in self.hotfix:
             sh('git checkout -q -b %s master' % h, u)
@@ -356,12 +359,45 @@ class World:
             fake_client = SimpleNamespace(auth=SimpleNamespace(username=ROBOT, password=pw), login=ROBOT,
                                           get_user_id=lambda: 'uid')
             repo = hostmod.Repository(fake_client, owner=OWNER, repo_slug=SLUG)
+        elif host == 'github_app':
+            # a real github Client in App mode (scripted session): installation token + JWT are secrets too
+            from cryptography.hazmat.primitives import serialization
+            from cryptography.hazmat.primitives.asymmetric import rsa
+            from cryptography.hazmat.backends import default_backend
+            from bert_e.git_host import github as hostmod
+            key = rsa.generate_private_key(public_exponent=65537, key_size=2048, backend=default_backend())
+            pem = key.private_bytes(serialization.Encoding.PEM, serialization.PrivateFormat.PKCS8,
+                                    serialization.NoEncryption()).decode()
+            token = 'ghs_INSTALLTOKEN0123456789abcdefXYZ'
+            self.extra_secrets = {token}
+            world = self
+
+            class Sess:
+                headers = {}
+
+                def post(self, url, **kw):
+                    auth = (kw.get('headers') or {}).get('Authorization', '')
+                    if auth.startswith('Bearer '):
+                        world.extra_secrets.add(auth[len('Bearer '):])
+                    return SimpleNamespace(status_code=201, raise_for_status=lambda: None,
+                                           json=lambda: {'token': token}, text='{}', headers={})
+            orig = hostmod.base.BertESession
+            hostmod.base.BertESession = Sess
+            hostmod.Client._get_installation_token.cache_clear()
+            try:
+                fake_client = hostmod.Client(login=ROBOT, password=pw, email='r@x.org', app_id=1, installation_id=7,
+                                             private_key=pem, base_url='http://api')
+            finally:
+                hostmod.base.BertESession = orig
+            repo = hostmod.Repository(fake_client, _validate=False, name=SLUG, owner={'login': OWNER},
+                                      full_name='%s/%s' % (OWNER, SLUG))
+            host = 'github'
         else:
             from bert_e.git_host import github as hostmod
             fake_client = SimpleNamespace(login=ROBOT, password=pw)
             repo = hostmod.Repository(fake_client, _validate=False, name=SLUG, owner={'login': OWNER},
                                       full_name='%s/%s' % (OWNER, SLUG))
-        fake_client.get_repository = lambda **kw: repo
+        fake_client.get_repository = lambda *a, **kw: repo
         settings = setup_settings(self.settings_path)
         settings['repository_host'] = host
         settings['robot_password'] = pw
